@@ -4,7 +4,7 @@ from __future__ import annotations
 import ast
 
 from ..algebra import NotPolynomial, Poly, ToPoly
-from ..flow import single_assign_env, axis_loops, rename
+from ..flow import single_assign_env, axis_loops, rename, expand
 from ..fold import Arr, Folder, Obj, Opaque, Raised, Refuse, Sym, TypeTag
 from ..report import AnalysisError
 from ..srcmodel import norm
@@ -578,11 +578,29 @@ def rule_b(ctx):
             ok = False
     ctx.ob(R, vs.qname, "voxel_size[i] == dimensions[i] / num_voxels[i] for i in range(space_dim)",
            ok and norm(g.iter) == "range(self.space_dim)", norm(lc), ret[0])
-    nv = m.func(IMG, "Image.num_voxels")
-    rets = [norm(n.value) for n in ast.walk(nv.node) if isinstance(n, ast.Return)]
-    ctx.ob(R, nv.qname, "num_voxels is the spatial prefix of the array shape", rets in (["list(self.shape[:self.space_dim])"], ["list(self.img.shape[:self.space_dim])"]),
-           str(rets), nv.node)
+    rule_num_voxels(ctx, R)
     _opposite_corner(ctx, R, m, T_i)
+
+
+def rule_num_voxels(ctx, R="C01.b"):
+    """Image.num_voxels is read off the array at the time of the call: the spatial prefix of self.shape / self.img.shape.  A value kept in
+    another attribute is a named contradiction (the array can be replaced after construction: corrections with overwrite, image.img = ...)."""
+    m = ctx.model
+    nv = m.func(IMG, "Image.num_voxels")
+    ctx.instance(R)
+    rets = [n.value for n in ast.walk(nv.node) if isinstance(n, ast.Return) and n.value is not None]
+    texts = [norm(expand(nv.node, r)) for r in rets]
+    good = ("list(self.shape[:self.space_dim])", "list(self.img.shape[:self.space_dim])", "[*self.shape[:self.space_dim]]", "[*self.img.shape[:self.space_dim]]")
+    stored = sorted({x.attr for r in rets for x in ast.walk(expand(nv.node, r)) if isinstance(x, ast.Attribute) and isinstance(x.value, ast.Name) and x.value.id == "self"
+                     and x.attr not in ("img", "shape", "space_dim")})
+    if texts and all(t in good for t in texts):
+        ctx.ob(R, nv.qname, "num_voxels is the spatial prefix of the array shape", True, "", nv.node)
+    elif stored:
+        ctx.ob(R, nv.qname, "num_voxels is the spatial prefix of the array shape", False,
+               f"num_voxels returns {texts}: read from the stored attribute(s) {stored}, not from the array -- stale as soon as the array is replaced by one of another shape "
+               "(grid, voxel size and coordinate system then describe the old array)", nv.node, evidence=True)
+    else:
+        ctx.ob(R, nv.qname, "num_voxels is the spatial prefix of the array shape", False, f"spatial prefix of the shape not found in {texts}", nv.node)
 
 
 def _opposite_corner(ctx, R, m, T_i):
